@@ -17,6 +17,7 @@ theorem C17_runner_perm (o : Opts) (p : Project) (σ τ : List String) (hσ : σ
   have hk' : ∀ n ∈ τ, p.known n = true := fun n hn => hk n (hperm.mem_iff.mpr hn)
   rw [displayed_eq_filter, displayed_eq_filter, offered_eq p σ hσ hk, offered_eq p τ hτ hk']
   apply List.Perm.filter
+  apply List.Perm.append_right
   apply List.Perm.append_left
   exact List.Perm.flatMap_right _ hperm
 
@@ -26,7 +27,7 @@ theorem C17_batch_of_definition (p : Project) (order : List String) (hnd : order
     (hk : ∀ n ∈ order, p.known n = true) (i : Nat) (hi : i < order.length) :
     (batches p order)[i + 1]? = some (expected p order[i]) := by
   rw [batches_eq p order hnd hk]
-  simp [List.getElem?_cons_succ, hi]
+  simp [List.getElem?_cons_succ, List.getElem?_append_left, hi]
 
 /-- exit status and summary are order-independent as well -/
 theorem C17_exit_perm (o : Opts) (p : Project) (σ τ : List String) (hσ : σ.Nodup) (hτ : τ.Nodup)
